@@ -13,6 +13,13 @@
 #include <iostream>
 
 #include "formatters/patternformatter.h"
+#include "formatters/prettyformatter.h"
+
+#include <condition_variable>
+#include <memory>
+#include <mutex>
+#include <thread>
+#include <vector>
 #include "trace.h"
 
 using namespace QtLogger;
@@ -28,12 +35,77 @@ static QtMsgType typeOf(const QString &s)
     return QtFatalMsg;
 }
 
+// "pretty" mode: every line of the input is one run {"maxw":n,"nthreads":k,"msgs":[{type,cat,text,thr}]}; the messages are
+// created on k threads that are all alive at the same time (so that their ids differ), then formatted in order by
+// ONE PrettyFormatter(false, maxw)
+static int prettyMode(const char *path)
+{
+    QFile in(QString::fromLocal8Bit(path));
+    if (!in.open(QIODevice::ReadOnly))
+        return 2;
+    vtrace::Writer out;
+    while (!in.atEnd()) {
+        const QByteArray line = in.readLine();
+        if (line.trimmed().isEmpty())
+            continue;
+        const QJsonObject run = QJsonDocument::fromJson(line).object();
+        const QJsonArray msgs = run["msgs"].toArray();
+        const int k = run["nthreads"].toInt(1);
+        std::vector<std::unique_ptr<LogMessage>> made(size_t(msgs.size()));
+        std::vector<QByteArray> cats(size_t(msgs.size()));
+        for (int i = 0; i < msgs.size(); ++i)
+            cats[size_t(i)] = fromUnits(msgs.at(i).toObject()["cat"].toArray()).toUtf8();
+        std::mutex mx;
+        std::condition_variable cv;
+        int ready = 0;
+        std::vector<std::thread> threads;
+        for (int t = 0; t < k; ++t) {
+            threads.emplace_back([&, t] {
+                for (int i = 0; i < msgs.size(); ++i) {
+                    const QJsonObject m = msgs.at(i).toObject();
+                    if (m["thr"].toInt() != t)
+                        continue;
+                    QMessageLogContext ctx("f.cpp", 1, "void f()", cats[size_t(i)].constData());
+                    made[size_t(i)].reset(new LogMessage(typeOf(m["type"].toString()), ctx, fromUnits(m["text"].toArray())));
+                }
+                std::unique_lock<std::mutex> lk(mx);
+                ++ready;
+                cv.notify_all();
+                cv.wait(lk, [&] { return ready >= k; });          // all threads alive together
+            });
+        }
+        for (auto &t : threads)
+            t.join();
+        PrettyFormatter f(false, run["maxw"].toInt());
+        QJsonObject r;
+        r["e"] = "Reset";
+        r["maxw"] = run["maxw"];
+        out.put(r);
+        for (int i = 0; i < msgs.size(); ++i) {
+            if (!made[size_t(i)])
+                continue;
+            const LogMessage &m = *made[size_t(i)];
+            QJsonObject o;
+            o["e"] = "Line";
+            o["i"] = i;
+            o["line"] = units(f.format(m));
+            o["tid"] = QString::number(m.threadId());
+            o["ts"] = units(m.time().toString(QStringLiteral("dd.MM.yyyy hh:mm:ss")));
+            out.put(o);
+        }
+    }
+    out.flush();
+    return 0;
+}
+
 int main(int argc, char **argv)
 {
     setenv("TZ", "UTC", 1);
     QCoreApplication app(argc, argv);
     if (argc < 2)
         return 2;
+    if (argc >= 3 && QByteArray(argv[1]) == "pretty")
+        return prettyMode(argv[2]);
     QFile in(QString::fromLocal8Bit(argv[1]));
     if (!in.open(QIODevice::ReadOnly))
         return 2;
